@@ -105,11 +105,19 @@ pub struct Tree {
     /// parent-entry flags of every table link: (level of the child table, base) -> flags of the entry pointing to it
     pub link_flags: BTreeMap<(u8, u64), u64>,
     pub malformed: Vec<String>,
+    pub structural: bool,
+    /// number of non-zero entries without PRESENT seen by a structural walk
+    pub nonpresent: u32,
 }
 
 /// Independent SDM-style traversal of the raw memory (oracle view): PML4E -> PDPTE(PS) -> PDE(PS) -> PTE.
 pub fn walk_all(sim: &Sim, skip_l4_slot: Option<usize>) -> Tree {
+    walk_all_mode(sim, skip_l4_slot, false)
+}
+/// structural = follow non-zero entries even when PRESENT is clear (the crate's own notion of a used entry, C08)
+pub fn walk_all_mode(sim: &Sim, skip_l4_slot: Option<usize>, structural: bool) -> Tree {
     let mut t = Tree::default();
+    t.structural = structural;
     fn rec(sim: &Sim, t: &mut Tree, frame: usize, level: u8, base: u64, skip: Option<usize>, depth_guard: u32) {
         if depth_guard > 4 {
             t.malformed.push("table loop".into());
@@ -125,8 +133,11 @@ pub fn walk_all(sim: &Sim, skip_l4_slot: Option<usize>) -> Tree {
             }
             let va = sext(base.wrapping_add(i as u64 * entry_span(level)) & 0xffff_ffff_ffff);
             if e & P == 0 {
-                t.malformed.push(format!("non-zero non-present entry {:#x} at level {} va {:#x}", e, level, va));
-                continue;
+                if !t.structural {
+                    t.malformed.push(format!("non-zero non-present entry {:#x} at level {} va {:#x}", e, level, va));
+                    continue;
+                }
+                t.nonpresent += 1;
             }
             let addr = e & ADDR_MASK;
             let fl = e & FLAG_MASK;
